@@ -6,7 +6,7 @@ text.  usage: tools/launch_round.py <id>=<focus-key> ...   e.g.  C01x=parser C18
 The agents themselves are started by hand (one per prompt file)."""
 import json, os, subprocess, sys
 
-USED = ("Mechanisms ALREADY USED by earlier attempts (do not repeat them or close variants): dropped/hoisted look-ahead before skip_break/read_break/peek_nth; block scalar indent / blank-line width vs capacity; 4 KiB spill of a block scalar line; document indicator terminators; lead-byte casts and char-class slips in StrInput overrides (incl. NUL inside comments); SWAR comment skipping and lone CR; bulk plain-scalar window; BufferedInput::skip_while_blank window; %XX escapes in tags; split_at on tag / scalar text at a fixed byte offset; %YAML version overflow; numeric scalar forms; surrogate-pair escapes; simple-key 1024 limit; token look-ahead cap with pending flow keys; indentless sequence / flow single-pair state slips; fixed-capacity implicit_flow_mapping_states; anchors.clear() moved/skipped/replaced in every way incl. keep_tags and wrapping scope stamps; anchor id reset; tag scope moved; %TAG duplicate handling under keep_tags; peek cache fast path / span fix-up; load peeking; u16 depth counter and alias budget in load; loader anchor table as Vec; per-alias scan of the open-collection stack; Hash by len; quadratic chars().count(); recursion in unroll_indent / emitter / directives / decoder driver / loader shrink pass / ScanError context chain; loader moved to a thread with a smaller stack; emitter literal-block indent constant; flow-mapping depth limit; every growth-step and chunking/windowing variant in decode; decoder state kept between decode() calls; BOM double sniff and mid-stream sniff; first-read sniffing; EINTR in a hand-written read loop; endianness detection; Ignore stripping U+FFFD; whitespace-only early-out with is_ascii_whitespace; unkeyed/invertible hash for the anchor table (needs computed collisions: not interesting, do not repeat); size hint taken from the previously closed collection; thread-local/RefCell buffers borrowed across user callbacks; debug_assert on span order in load; NUL lost in raw_read_non_breakz_ch; padded format call with run-time width > 65535 in the emitter; truncating `char as u8` casts in char_traits (is_hex, is_flow); reserve(len - len_before) after the trap callback; shrink_to instead of clear for big anchor tables; recursive has_representation scan inside parse_representation_recursive; anything keyed on Iterator::size_hint of the char source; recursion per leading sign in scalar resolution; releasing the parser's state stack at a document boundary; line/column computed with rfind(line end)+1; tail call of fetch_value for `: : :`; frame-size growth of the recursive loader (a pure threshold shift: not interesting); position counters narrower than usize (needs 2^32 characters); fuse set on error in next_event_impl; stall counters in decode_loop; unclamped slice of the core-schema prefix; Vec+cursor token queue with a wrong len(); chars().position() vs len() in StrInput; accumulating trailing_breaks in folded flow scalars; byte-indexed lookup tables on non-ASCII text; raw_read paths of StrInput; node/element limits reset per document in load only; hard limits on the number of malformed sequences; emitter indentation indicators; tag table cloned per document under keep_tags; re-walking a subtree in deferred resolution after a failed tag; non-recursive forwarding in load keyed on the state-stack length; encoding_trap(Strict) not resetting a lenient handler; capacity arithmetic of the parser's state stack; O(depth) predicates evaluated per TAB/blank; merge-key (<<) handling in the loader; byte-level fast paths for anchor names in StrInput; per-document scanner state reset in load only; retrying read_to_end on WouldBlock; indent stack stored as u16 steps.")
+USED = ("Mechanisms ALREADY USED by earlier attempts (do not repeat them or close variants): dropped/hoisted look-ahead before skip_break/read_break/peek_nth; block scalar indent / blank-line width vs capacity; 4 KiB spill of a block scalar line; document indicator terminators; lead-byte casts and char-class slips in StrInput overrides (incl. NUL inside comments); SWAR comment skipping and lone CR; bulk plain-scalar window; BufferedInput::skip_while_blank window; %XX escapes in tags; split_at on tag / scalar text at a fixed byte offset; %YAML version overflow; numeric scalar forms; surrogate-pair escapes; simple-key 1024 limit; token look-ahead cap with pending flow keys; indentless sequence / flow single-pair state slips; fixed-capacity implicit_flow_mapping_states; anchors.clear() moved/skipped/replaced in every way incl. keep_tags and wrapping scope stamps; anchor id reset; tag scope moved; %TAG duplicate handling under keep_tags; peek cache fast path / span fix-up; load peeking; u16 depth counter and alias budget in load; loader anchor table as Vec; per-alias scan of the open-collection stack; Hash by len; quadratic chars().count(); recursion in unroll_indent / emitter / directives / decoder driver / loader shrink pass / ScanError context chain; loader moved to a thread with a smaller stack; emitter literal-block indent constant; flow-mapping depth limit; every growth-step and chunking/windowing variant in decode; decoder state kept between decode() calls; BOM double sniff and mid-stream sniff; first-read sniffing; EINTR in a hand-written read loop; endianness detection; Ignore stripping U+FFFD; whitespace-only early-out with is_ascii_whitespace; unkeyed/invertible hash for the anchor table (needs computed collisions: not interesting, do not repeat); size hint taken from the previously closed collection; thread-local/RefCell buffers borrowed across user callbacks; debug_assert on span order in load; NUL lost in raw_read_non_breakz_ch; padded format call with run-time width > 65535 in the emitter; truncating `char as u8` casts in char_traits (is_hex, is_flow); reserve(len - len_before) after the trap callback; shrink_to instead of clear for big anchor tables; recursive has_representation scan inside parse_representation_recursive; anything keyed on Iterator::size_hint of the char source; recursion per leading sign in scalar resolution; releasing the parser's state stack at a document boundary; line/column computed with rfind(line end)+1; tail call of fetch_value for `: : :`; frame-size growth of the recursive loader (a pure threshold shift: not interesting); position counters narrower than usize (needs 2^32 characters); fuse set on error in next_event_impl; stall counters in decode_loop; unclamped slice of the core-schema prefix; Vec+cursor token queue with a wrong len(); chars().position() vs len() in StrInput; accumulating trailing_breaks in folded flow scalars; byte-indexed lookup tables on non-ASCII text; raw_read paths of StrInput; node/element limits reset per document in load only; hard limits on the number of malformed sequences; emitter indentation indicators; tag table cloned per document under keep_tags; re-walking a subtree in deferred resolution after a failed tag; non-recursive forwarding in load keyed on the state-stack length; encoding_trap(Strict) not resetting a lenient handler; capacity arithmetic of the parser's state stack; O(depth) predicates evaluated per TAB/blank; merge-key (<<) handling in the loader; byte-level fast paths for anchor names in StrInput; per-document scanner state reset in load only; retrying read_to_end on WouldBlock; indent stack stored as u16 steps; backwards walk of the token queue per flow `?`; duplicate-key bookkeeping with Vec::contains; StrInput::buflen clamped to the remaining input; StrInput document-marker fast paths; conditions on when the peeked error is kept; constant-size indentation strings in the emitter.")
 FOCUS = {
     "parser": "anything in parser/src — your choice. ",
     "loader": "anything in saphyr/src reachable through the four document loaders (incl. deferred resolution) — your choice. ",
